@@ -18,7 +18,9 @@ type BranchCase struct {
 	Mode     int    `json:"mode"`
 	Org      int64  `json:"org"`
 	Mn       string `json:"mn"`
-	Kind     string `json:"kind"`   // fwd | bwd | num | far
+	Kind     string `json:"kind"`   // fwd | bwd | num | far | chain | dollar ($+Rel as the target)
+	Rel      int64  `json:"rel,omitempty"`
+	Widen    bool   `json:"widen,omitempty"` // a Jcc over 200 reserved bytes in front: the program needs a second assembly round
 	Filler   int    `json:"filler"` // bytes between branch and target (fwd: after the branch; bwd: between target and branch)
 	Pad      int    `json:"pad"`    // NOPs before everything
 	Trailing bool   `json:"trailing"`
@@ -41,6 +43,9 @@ func (c BranchCase) source() (string, []byte) {
 	sb.WriteString(sem.Header(c.Mode))
 	for i := 0; i < c.Pad; i++ {
 		sb.WriteString("\tNOP\n")
+	}
+	if c.Widen {
+		sb.WriteString(widenPrefix)
 	}
 	fill := func() {
 		if c.Filler > 0 {
@@ -69,6 +74,15 @@ func (c BranchCase) source() (string, []byte) {
 		}
 	case "num":
 		fmt.Fprintf(&sb, "\t%s\n\t%s 0x%x\n", mA, c.Mn, c.Target)
+	case "dollar":
+		switch {
+		case c.Rel == 0:
+			fmt.Fprintf(&sb, "\t%s\n\t%s $\n", mA, c.Mn)
+		case c.Rel < 0:
+			fmt.Fprintf(&sb, "\t%s\n\t%s $-%d\n", mA, c.Mn, -c.Rel)
+		default:
+			fmt.Fprintf(&sb, "\t%s\n\t%s $+%d\n", mA, c.Mn, c.Rel)
+		}
 	case "far":
 		dw := ""
 		if c.Dword {
@@ -107,6 +121,9 @@ func checkC04(c BranchCase) Verdict {
 	src, _ := c.source()
 	mode := sem.ModeOf(c.Mode)
 	v := Verdict{Key: src, Class: fmt.Sprintf("%s|%d", c.Kind, mode)}
+	if c.Widen {
+		v.Class += "|widen"
+	}
 	hdr := ""
 	if c.Org >= 0 {
 		hdr = fmt.Sprintf("\tORG 0x%x\n", c.Org)
@@ -212,6 +229,12 @@ func checkC04(c BranchCase) Verdict {
 	switch c.Kind {
 	case "num":
 		want = c.Target
+	case "dollar":
+		// $ is the address of the statement it is written in
+		want = org + int64(at) + c.Rel
+		if mode == 32 {
+			want &= 0xffffffff
+		}
 	default:
 		ob, ok := find(2)
 		if !ok {
@@ -297,13 +320,13 @@ var c04Fillers = func() []int {
 
 var propC04 = &Prop[BranchCase]{
 	ID:   "C04",
-	Rule: "micro-programs 'pad; Jxx L; RESB d; L:' and the backward mirror for the 31 jump mnemonics and CALL, every d in 0..140 and around 32768, numeric targets, far JMP seg:off with boundary values, ORG from the quantifier's set, BITS none/16/32, with and without a further label after the branch; oracle: decoded (next + rel) = origin + marker offset of the target, decoded condition = canonical condition of the mnemonic, filler intact; non-trivial = accepted; distinct by source text",
+	Rule: "micro-programs 'pad; Jxx L; RESB d; L:' and the backward mirror for the 31 jump mnemonics and CALL, every d in 0..140 and around 32768, numeric targets, targets written relative to $ ($, $+k, $-k), far JMP seg:off with boundary values, ORG from the quantifier's set, BITS none/16/32, with and without a further label after the branch, with and without an earlier out-of-reach Jcc that forces a second assembly round; oracle: decoded (next + rel) = origin + marker offset of the target, decoded condition = canonical condition of the mnemonic, filler intact; non-trivial = accepted; distinct by source text",
 	Gen: func(t *rapid.T) BranchCase {
 		c := BranchCase{
 			Mode:     rapid.SampledFrom([]int{0, 16, 32}).Draw(t, "mode"),
 			Org:      rapid.SampledFrom(orgSet).Draw(t, "org"),
 			Mn:       rapid.SampledFrom(branchMnemonics()).Draw(t, "mn"),
-			Kind:     rapid.SampledFrom([]string{"fwd", "fwd", "bwd", "bwd", "num", "far", "chain", "chain"}).Draw(t, "kind"),
+			Kind:     rapid.SampledFrom([]string{"fwd", "fwd", "bwd", "bwd", "num", "far", "chain", "chain", "dollar"}).Draw(t, "kind"),
 			Pad:      rapid.IntRange(0, 3).Draw(t, "pad"),
 			Trailing: rapid.Bool().Draw(t, "trailing"),
 		}
@@ -335,6 +358,10 @@ var propC04 = &Prop[BranchCase]{
 		if c.Kind == "num" {
 			c.Target = rapid.SampledFrom([]int64{0, 5, 0x7c00, 0x7c10, 0x7c80, 0x7c81, 0x7c82, 0x7c83, 0x8000, 0xc200, 0xfffe, 0x1234}).Draw(t, "target")
 		}
+		if c.Kind == "dollar" {
+			c.Rel = rapid.SampledFrom([]int64{0, 1, 2, 3, 5, 6, -1, -2, -6, 126, 127, 128, 129, 130, 131, -125, -126, -127, -128, -129, 200, -200, 0x1000, -0x1000}).Draw(t, "rel")
+		}
+		c.Widen = rapid.IntRange(0, 3).Draw(t, "widen") == 0
 		if c.Kind == "far" {
 			c.Mn = "JMP"
 			c.Seg = rapid.SampledFrom([]int64{0, 8, 16, 0x28, 0x7fff, 0xffff}).Draw(t, "seg")
@@ -386,6 +413,36 @@ var propC04 = &Prop[BranchCase]{
 							}
 						}
 						yield(c)
+					}
+				}
+			}
+		}
+		// cascades: with all branches short, only the innermost-last one is out of reach; widening it pushes the
+		// next one out of reach, and so on: one more assembly round per branch
+		maxk := 8
+		if tier != "quick" {
+			maxk = 14
+		}
+		for _, mode := range []int{16, 32} {
+			for _, mn := range []string{"JMP", "JE", "CALL"} {
+				for _, gap := range []int{3, 4} {
+					for k := 2; k <= maxk; k++ {
+						for d := -2; d <= 2; d++ {
+							g0 := 128 - (k-1)*(6+gap) + d
+							if g0 < 0 {
+								continue
+							}
+							c := BranchCase{Mode: mode, Org: 0x7c00, Kind: "chain", Trailing: true}
+							for i := 0; i < k; i++ {
+								c.Chain = append(c.Chain, mn)
+								if i == 0 {
+									c.Gaps = append(c.Gaps, g0)
+								} else {
+									c.Gaps = append(c.Gaps, gap)
+								}
+							}
+							yield(c)
+						}
 					}
 				}
 			}
